@@ -98,6 +98,10 @@ def parse_template(text, base_dir='.'):
         if s.startswith('//@props '):
             meta['props'] = s.split()[1:]
             continue
+        if s.startswith('//@tier '):
+            # read by vchk (a `thorough` unit is skipped by the quick tier)
+            meta['tier'] = s.split()[1]
+            continue
         if s.startswith('//@oblig '):
             # free-standing obligation declaration for template-only items (lemmas):  //@oblig C03.d fn_name kind
             meta['obligs_decl'].append(s.split()[1:])
@@ -107,7 +111,7 @@ def parse_template(text, base_dir='.'):
             spec = s[len('//@extract '):]
             segs = [x.strip() for x in spec.split(' >> ')]
             cur = dict(file=segs[0], path=segs[1:], obligs=[], ret=None, spec=[], loops={}, inserts=[], desugar={}, loopbody={}, preloop={},
-                       external=False, keep_attrs=False, subs=[], rename=None, attr=None, slice=None, tline=ln)
+                       external=False, keep_attrs=False, subs=[], rename=None, attr=None, slice=None, no_r6=False, tline=ln)
             sec = None
             continue
         if s.startswith('//@|'):
@@ -147,7 +151,7 @@ def parse_template(text, base_dir='.'):
                 if not m:
                     raise TemplateError('line %d: bad %s directive' % (ln, kw))
                 sec = []
-                cur['inserts'].append(dict(where=kw, lit=m.group(1).replace('\\"', '"'), nth=int(m.group(2) or 1), lines=sec))
+                cur['inserts'].append(dict(where=kw, lit=m.group(1).replace('\\"', '"').replace('\\n', '\n'), nth=int(m.group(2) or 1), lines=sec))
             elif kw == 'external':
                 cur['external'] = True
                 sec = None
@@ -167,6 +171,17 @@ def parse_template(text, base_dir='.'):
                 sec = None
             elif kw == 'rename':
                 cur['rename'] = rest
+                sec = None
+            elif kw == 'no-r6':
+                # the template rewrites the argument-position `impl Trait` itself (manual rewrite with its reason): skip rule R6
+                cur['no_r6'] = True
+                sec = None
+            elif kw == 'suball':
+                # like `sub`, for a text that occurs several times in the item (copy-pasted branches): every occurrence is rewritten
+                m = re.match(r'"((?:[^"\\]|\\.)*)"\s*=>\s*"((?:[^"\\]|\\.)*)"\s+because\s+(.+)$', rest)
+                if not m:
+                    raise TemplateError('line %d: bad suball directive' % ln)
+                cur['subs'].append((m.group(1).replace('\\"', '"').replace('\\n', '\n'), m.group(2).replace('\\"', '"').replace('\\n', '\n'), m.group(3), True))
                 sec = None
             elif kw == 'sub':
                 m = re.match(r'"((?:[^"\\]|\\.)*)"\s*=>\s*"((?:[^"\\]|\\.)*)"\s+because\s+(.+)$', rest)
@@ -335,6 +350,8 @@ def extract(node, variant, report):
         depth = 0
         while idx < kend:
             t = ct[idx]
+            if node.get('no_r6'):
+                break
             if t.kind == 'ident' and t.text == 'impl':
                 # type extends to ',' or ')' at depth 0
                 j = idx + 1
@@ -453,10 +470,20 @@ def extract(node, variant, report):
         lines = [_pick(h, variant) for h in ins['lines']]
         at = pos if ins['where'] == 'before' else pos + len(lit)
         edits.append((at, at, '\n' + '\n'.join(lines) + '\n', 'insert'))
-    for old, new, why in node['subs']:
+    for sub in node['subs']:
+        old, new, why = sub[0], sub[1], sub[2]
+        every = len(sub) > 3 and sub[3]
         pos = text.find(old, search_from, it.end)
         if pos < 0:
             raise AnchorLost('%s: sub anchor %r not found in %s' % (node['file'], old, ' >> '.join(node['path'])))
+        if every:
+            n_occ = 0
+            while pos >= 0:
+                edits.append((pos, pos + len(old), new, 'MR'))
+                n_occ += 1
+                pos = text.find(old, pos + len(old), it.end)
+            report['manual_rewrites'].append(dict(item=' >> '.join([node['file']] + node['path']), old=old, new=new, reason=why, occurrences=n_occ))
+            continue
         if text.find(old, pos + 1, it.end) >= 0:
             raise TemplateError('sub anchor %r ambiguous in %s' % (old, node['path']))
         edits.append((pos, pos + len(old), new, 'MR'))
